@@ -3,6 +3,6 @@
 # (/tmp/seed2-<P>.diff, /tmp/seed2-<P>-demo_test.go): check verdict + demonstration both ways.
 cd "$(dirname "$0")/.."
 P=$1; NAME=$2; PKG=$3; RUN=$4
-export SEED_DIFF=/tmp/seed2-$P.diff SEED_DEMO=/tmp/seed2-$P-demo_test.go
+export SEED_DIFF=/tmp/seed${ROUND:-2}-$P.diff SEED_DEMO=/tmp/seed${ROUND:-2}-$P-demo_test.go
 tools/seedcheck.sh $P $NAME - . ${5:-quick} 2>&1 | tail -6
 tools/seeddemo.sh $P $NAME $PKG "$RUN" 2>&1 | tail -4
